@@ -58,8 +58,11 @@ func buildNatives() map[string]nativeFn {
 		if !lo.IsConst() || !hi.IsConst() {
 			panic(in.unenc("IntRange with symbolic bounds"))
 		}
+		// build the literal before the range fact is known to the simplifier,
+		// otherwise it would fold to true and never reach the path condition
+		lit := in.C.And(in.C.RawSLe(lo, t), in.C.RawSLe(t, hi))
+		in.assume(lit)
 		in.C.SetRange(t, lo.Int64(), hi.Int64())
-		in.assume(in.C.And(in.C.SLe(in.rawCmpConst(lo), t), in.C.SLe(t, in.rawCmpConst(hi))))
 		return t
 	})
 	rt("Choose", func(in *Interp, fn *ssa.Function, a []Value) Value {
